@@ -1,5 +1,5 @@
 """Per-property checks.  Each function fills a Verdict."""
-import os, json, random
+import os, json, random, re
 from infra import *
 import pdu
 from pdu import ALL_VIEWS, LEGACY_VIEWS, Bind
@@ -515,3 +515,232 @@ def c14(v, tier, seed):
                      "of shapes, every named field x 2 paths, initialisers, CAN builds and VSS put/get, compared with the model's prediction for (host=LE, branch=BE)")
     v.cov["distinct_nontrivial"] = v.cov.get("replayed_transitions", 0)
     v.assumptions.append("no big-endian execution platform exists in the sandbox: big-endian memory is modelled (Store/Load), the big-endian helper set is executed on little-endian memory")
+
+
+def c15_vectors(v, wd, q):
+    """TLC-generated transition sets for the placement sweep (predictions carry no address)."""
+    import hostx, can, vss
+    sets = {}
+    views = ["Can", "CanBrief", "Gpc", "Tscf", "Ntscf", "Rvf", "Crf", "Vss", "Most", "Udp"] if q else ALL_VIEWS
+    res = run_tlc("GenPdu", pdu.gen_cfg("hdr", views, 0, False, 1), wd); v.add_tlc("GenPdu/hdr", res)
+    sets["pdu"] = [x for x in res.emitted if x["base"] == 0 and x["op"] != "payload"]
+    res = run_tlc("GenImpl", hostx.impl_cfg([0, 1], [0, 3, 16, 24, 31], [1, 8, 29, 32, 33, 48, 64], "LE", "LE"), wd); v.add_tlc("GenImpl", res)
+    sets["raw"] = res.emitted
+    res = run_tlc("GenCan", can.cfg("create", list(range(0, 13)) + [63, 64], ["full", "brief"], 1), wd); v.add_tlc("GenCan/create", res)
+    sets["can"] = res.emitted
+    types = [2, 4, 6, 9, 10, 11, 130, 132, 134, 137, 138, 139] if q else vss.ALL_TYPES
+    res = run_tlc("GenVss", vss.cfg("encode", [0, 1], types, 1), wd); v.add_tlc("GenVss/encode", res)
+    sets["vss"] = [x for x in res.emitted if x["base"] == 0]
+    res = run_tlc("GenVss", vss.cfg("decode", [0, 1], types, 1), wd); v.add_tlc("GenVss/decode", res)
+    sets["vss"] += [x for x in res.emitted if x["base"] == 0]
+    res = run_tlc("GenVss", vss.cfg("pad", [0], [0], 1, lens=list(range(12, 30))), wd); v.add_tlc("GenVss/pad", res)
+    sets["vss"] += [x for x in res.emitted if x["base"] == 0]
+    for r in v.cov["tlc_runs"]:
+        if not r["ok"]: raise Infra("specification property violated in " + r["run"])
+    return sets
+
+
+@check("C15")
+def c15(v, tier, seed):
+    import hostx, can, vss, re, concurrent.futures as cf
+    rnd = random.Random(seed)
+    wd = workdir()
+    q = tier == "quick"
+    sets = c15_vectors(v, wd, q)
+    variants = ["gccO0", "gccO2", "gccO3", "clangO0", "clangO1", "clangO3"] if q else ["gccO0", "gccO1", "gccO2", "gccO3", "clangO0", "clangO1", "clangO2", "clangO3"]
+    with cf.ThreadPoolExecutor(max_workers=8) as pool:
+        exes = dict(zip(variants + ["align"], pool.map(lambda x: build_exec(wd, x), variants + ["align"])))
+    places = [("S", o) for o in range(8)]
+    bind = None
+    def sweep(name):
+        nonlocal bind
+        ex = Executor(exes[name], wd)
+        if bind is None: bind = Bind(ex.describe())
+        n = 0
+        tag = "[%s] " % name
+        n += pdu.replay(v, ex, bind, sets["pdu"], "C15", tier, rnd, places=places, tag=tag)["executed"]
+        n += hostx.raw_replay(v, ex, sets["raw"], rnd, "build=%s" % name if False else "native", places=places)["executed"]
+        n += can.replay(v, ex, sets["can"], rnd, places=places, tag=tag)["executed"]
+        n += vss.replay(v, ex, sets["vss"], rnd, places=places, tag=tag)["executed"]
+        return n, ex.stderr
+    total = 0
+    for name in variants:
+        n, _ = sweep(name); total += n
+    # alignment sanitizer: every misaligned typed access is an event the specification has no action for
+    n, err = sweep("align"); total += n
+    sites = sorted(set(re.findall(r"([\w/\.\-]+\.[ch]):(\d+):\d+: runtime error: (load|store|member access|reference binding)[^\n]*misaligned", err)))
+    for f, line, kind in sites:
+        if "/harness/" in f or "/bind/" in f: continue
+        rel = f[f.find("/src/") + 1:] if "/src/" in f else (f[f.find("/include/") + 1:] if "/include/" in f else f)
+        v.violation("misaligned %s %s" % (kind, rel), "%s:%s performs a %s through a pointer that assumes more than byte alignment (UBSan -fsanitize=alignment, PDU at address offsets 0..7)" % (rel, line, kind),
+                    {"site": "%s:%s" % (rel, line), "kind": kind})
+    v.cov["evaluations"] += total
+    v.cov["replayed_transitions"] = sum(len(x) for x in sets.values())
+    v.cov["builds"] = variants + ["align"]
+    v.sample({"tlc_transition": sets["can"][0], "placements": places})
+    v.cov["rule"] = ("TLC-generated transitions (header accessors and initialisers, raw descriptors, CAN builders, VSS codec and finalisation) replayed with the PDU at "
+                     "address offsets 0..7 (relative to a page) under %d compiler/optimisation builds: every result must equal the address-free prediction of the "
+                     "specification; the same under clang -fsanitize=alignment, where each misaligned typed access is reported" % len(variants))
+    v.cov["distinct_nontrivial"] = v.cov["replayed_transitions"]
+
+
+def writable_symbols(wd):
+    """Library-defined objects in writable sections of the compiled objects (C16: SharedCells must be empty)."""
+    import subprocess
+    out = []
+    objdir = os.path.join(wd, "objs"); os.makedirs(objdir, exist_ok=True)
+    for opt in ("-O0", "-O2"):
+        for src in lib_sources():
+            o = os.path.join(objdir, os.path.basename(src) + opt + ".o")
+            r = subprocess.run(["gcc", opt, "-fPIC", "-std=gnu99", "-w", "-I" + os.path.join(REPO, "include"), "-c", src, "-o", o], capture_output=True, text=True)
+            if r.returncode != 0: raise CompileError(r.stderr[-2000:])
+            r = subprocess.run(["nm", "-f", "sysv", "--defined-only", o], capture_output=True, text=True)
+            for ln in r.stdout.split("\n"):
+                f = [x.strip() for x in ln.split("|")]
+                if len(f) < 7: continue
+                name, cls, typ, sec = f[0], f[2], f[3], f[6]
+                if typ not in ("OBJECT", "TLS", "COMMON"): continue
+                if sec.startswith(".data.rel.ro") or sec.startswith(".rodata"): continue
+                if sec.startswith(".data") or sec.startswith(".bss") or sec.startswith(".tbss") or sec.startswith(".tdata") or sec in ("*COM*", "COM"):
+                    rel = os.path.relpath(src, REPO)
+                    out.append({"e": "fact", "kind": "writable_symbol", "name": "%s:%s" % (rel, name.split(".")[0]), "view": "", "value": 0, "section": sec})
+    # unique
+    seen, uniq = set(), []
+    for e in out:
+        if e["name"] not in seen: seen.add(e["name"]); uniq.append(e)
+    return uniq
+
+
+def reentrancy_cfg(threads, k, calls, shared):
+    return ("SPECIFICATION Spec\nCONSTANTS\n  Threads = {%s}\n  K = %d\n  SharedCells = {%s}\n  Calls = %d\nINVARIANT SequentialResults\nINVARIANT NoCrossTalk\nINVARIANT SharedUntouched\nCHECK_DEADLOCK FALSE\n"
+            % (", ".join(str(i + 1) for i in range(threads)), k, '"scratch"' if shared else "", calls))
+
+
+@check("C16")
+def c16(v, tier, seed):
+    import vss, subprocess, glob as _g
+    rnd = random.Random(seed)
+    wd = workdir()
+    q = tier == "quick"
+    # (1) the model: all interleavings of quadlet-granular steps; the negative model shows non-vacuity
+    res = run_tlc("Reentrancy", reentrancy_cfg(3, 2, 2, False) if q else reentrancy_cfg(3, 3, 3, False), wd)
+    v.add_tlc("Reentrancy (SharedCells = {})", res)
+    if not res.ok: raise Infra("Reentrancy model violated with SharedCells = {}:\n" + (res.violation or "")[-1200:])
+    neg = run_tlc("Reentrancy", reentrancy_cfg(2, 2, 1, True), wd)
+    v.add_tlc("Reentrancy negative model (SharedCells = {scratch})", neg)
+    if neg.ok: raise Infra("negative Reentrancy model found no race: the model is vacuous")
+    v.cov["negative_model"] = "with a library-owned static scratch cell TLC finds a violating interleaving (NoCrossTalk/SequentialResults)"
+    # (2) SharedCells = {} holds for the compiled library: no library object in a writable section
+    syms = writable_symbols(wd)
+    ok_evs = [{"e": "fact", "kind": "header_len", "view": "Can", "name": "AVTP_CAN_HEADER_LEN", "value": 16}]  # keeps the trace non-empty
+    pdu.validate_facts(v, wd, ok_evs + syms, "C16")
+    v.cov["writable_library_symbols"] = [s["name"] for s in syms]
+    # (3) stress: 8 threads under TSan; per-thread logs validated by the sequential trace specifications
+    ex = Executor(build_exec(wd, "O2"), wd); bind = Bind(ex.describe()); layout = pdu.field_widths(wd)
+    stress = os.path.join(wd, "stress_tsan")
+    cmd = ["clang", "-O1", "-g", "-fsanitize=thread", "-fno-strict-aliasing", "-std=gnu99", "-w", "-I" + os.path.join(REPO, "include"), "-I" + HARNESS,
+           os.path.join(HARNESS, "stress.c")] + sorted(_g.glob(os.path.join(gen_bindings(wd), "*.c"))) + lib_sources() + ["-o", stress, "-lpthread", "-lm"]
+    r = subprocess.run(cmd, capture_output=True, text=True)
+    if r.returncode != 0: raise CompileError(r.stderr[-3000:])
+    nthr = 8
+    per = 1500 if q else 20000
+    L = layout["hdrlen"]
+    shared = pdu.rand_bytes(rnd, 32)
+    lines = ["S 0 " + hexs(shared)]
+    evs = {t: [] for t in range(nthr)}
+    for t in range(nthr):
+        lines.append("T %d" % t)
+        views = [rnd.choice(ALL_VIEWS) for _ in range(4)]
+        for s_ in range(4):
+            m = pdu.rand_bytes(rnd, L[views[s_]] + 4)
+            lines.append("L %d %s" % (s_, hexs(m))); evs[t].append({"e": "load", "buf": s_, "base": 0, "mem": m})
+        i = 0
+        while i < per:
+            k = rnd.random()
+            if k < 0.12:      # read of the shared buffer (any view that fits)
+                view = rnd.choice([x for x in ALL_VIEWS if L[x] <= 32])
+                field = rnd.choice(list(layout["fields"][view]))
+                paths = [p for p in ("generic", "dedicated", "legacy") if bind.has_path(view, field, "get", p)]
+                if not paths: continue
+                p = rnd.choice(paths)
+                lines.append("D S %s get %s %d 0000000000000000 0" % (view, p, bind.fidx[view][field]))
+                evs[t].append({"e": "op", "buf": 7, "base": 0, "op": "get", "view": view, "field": field, "path": p, "val": v64(0), "id": "", "pre": shared})
+            elif k < 0.30:    # VSS decode of a private message with thread-specific content
+                dt = rnd.choice([130, 132, 134, 137, 138, 128, 11, 2, 6, 10])
+                val = vss.rand_value(rnd, dt)
+                mode = rnd.choice((0, 1)); path = [rnd.randrange(256) for _ in range(rnd.choice((1, 4, 13)))] if mode == 0 else [1, 2, 3, 4]
+                pw, dw = vss.enc_ref(mode, path, dt, val)
+                lead = rnd.randrange(4)
+                msg = pdu.rand_bytes(rnd, lead) + vss.hdr_bytes(rnd, mode, dt) + pw + dw
+                lines.append("V %d 1 %d %d %s" % (dt, len(val), lead, hexs(msg)))
+                evs[t].append({"e": "vss", "op": "getdata", "arg": [], "n": 1, "base": lead, "pre": msg, "mode": mode, "dt": dt})
+            else:
+                s_ = rnd.randrange(4); view = views[s_]
+                op = rnd.choice(("get", "set", "set", "init"))
+                field, p, val = "", "", 0
+                if op == "init":
+                    ps = [x for x in ("current", "legacy") if bind.has_path(view, "", "init", x)]
+                    if not ps: continue
+                    p = rnd.choice(ps)
+                    if p == "legacy" and view == "Cvf": val = rnd.randrange(256)
+                else:
+                    field = rnd.choice(list(layout["fields"][view]))
+                    ps = [x for x in ("generic", "dedicated", "legacy") if bind.has_path(view, field, op, x)]
+                    if not ps: continue
+                    p = rnd.choice(ps)
+                    if op == "set": val = pdu.rand_val(rnd, layout["fields"][view][field])
+                lines.append("D %d %s %s %s %d %s 0" % (s_, view, op, p, bind.fidx[view].get(field, -1), hexs(v64(val))))
+                evs[t].append({"e": "op", "buf": s_, "base": 0, "op": op, "view": view, "field": field, "path": p, "val": v64(val), "id": ""})
+            i += 1
+    inp = os.path.join(wd, "stress_in.txt")
+    open(inp, "w").write("\n".join(lines) + "\n")
+    env = dict(os.environ, TSAN_OPTIONS="halt_on_error=0:report_signal_unsafe=0:exitcode=0")
+    runs = 2 if q else 6
+    for run in range(runs):
+        try:
+            r = subprocess.run([stress, inp], capture_output=True, text=True, timeout=900, env=env)
+        except subprocess.TimeoutExpired:
+            v.violation("stress kind=hang", "the concurrent stress run did not finish within 900 s", {}); break
+        if r.returncode != 0:
+            v.violation("stress kind=crash", "the concurrent stress run died (exit %d): %s" % (r.returncode, r.stderr[-600:]), {}); break
+        races = re.findall(r"WARNING: ThreadSanitizer: data race.*?(?=\n\n|\Z)", r.stderr, flags=re.S)
+        for rc_ in races[:5]:
+            loc = re.search(r"#\d+ (\w+) ([\w/\.\-]+):(\d+)", rc_)
+            site = ("%s %s" % (loc.group(1), os.path.basename(loc.group(2)))) if loc else "?"
+            v.violation("tsan race %s" % site, "ThreadSanitizer reports a data race between library calls on distinct PDUs: " + rc_[:700], {"report": rc_[:2000]})
+        # per-thread logs -> trace events
+        obs = {t: [] for t in range(nthr)}
+        for ln in r.stdout.split("\n"):
+            if not ln: continue
+            tid, idx, rest = ln.split(" ", 2)
+            obs[int(tid)].append(rest)
+        want = {t: sum(1 for e in evs[t] if e["e"] != "load") for t in range(nthr)}
+        if any(len(obs[t]) != want[t] for t in range(nthr)):
+            v.violation("stress kind=incomplete", "a thread logged %s calls instead of %s (stderr: %s)" % ({t: len(obs[t]) for t in obs}, want, r.stderr[-400:]), {})
+            break
+        pdu_shards, vss_shards = [], []
+        for t in range(nthr):
+            it = iter(obs[t]); pe, ve = [], []
+            for e in evs[t]:
+                if e["e"] == "load": pe.append(e); continue
+                line = next(it)
+                if e["e"] == "op":
+                    tk = line.split()
+                    pe.append(dict(e, post=unhexs(tk[5]), ret=unhexs(tk[2]), rc=-int(tk[3]), out=unhexs(tk[4])))
+                else:
+                    o = vss.parse(line)
+                    ve.append({"e": "vss", "op": "getdata", "arg": [], "n": 1, "base": e["base"], "pre": e["pre"], "post": unhexs(o["post"]),
+                               "ret": 0, "len": int(o["len"]), "bytes": unhexs(o["data"]), "mode": e["mode"], "dt": e["dt"]})
+            pdu_shards.append(pe); vss_shards.append(ve)
+        pdu.validate_events(v, wd, pdu_shards, "C16", "thread-log-run%d" % run, independent=False,
+                            keyfn=lambda e: "concurrent view=%s op=%s field=%s kind=trace" % (e.get("view"), e.get("op"), e.get("field") or "-"))
+        cfgt = open(os.path.join(SPEC, "VssTrace.cfg")).read()
+        pdu.validate_events(v, wd, vss_shards, "C16", "thread-vss-run%d" % run, module="VssTrace", cfg=cfgt,
+                            keyfn=lambda e: "concurrent " + vss.vkey(e) + " kind=trace")
+        v.cov["evaluations"] += sum(len(x) for x in evs.values())
+    v.sample({"thread_log_event": evs[0][5], "threads": nthr, "ops_per_thread": per})
+    v.cov["rule"] = ("model: every interleaving of quadlet-granular load/store steps of 3 threads (own buffers + one read-shared buffer), SharedCells = {} ; "
+                     "binding: (a) no library object in a writable section of the compiled objects (-O0 and -O2; function-local statics included) - validated by FactsTrace, "
+                     "(b) %d threads x %d calls under ThreadSanitizer, each thread's log validated by the sequential trace specifications" % (nthr, per))
+    v.cov["distinct_nontrivial"] = res.distinct
+    v.assumptions.append("the universal claim over schedules rests on SharedCells = {} (structural fact checked on the objects) plus readers not writing (C01 read-only placement); the stress run samples schedules")
